@@ -65,30 +65,42 @@ Theorem C16_filter_is_on_base_name : forall unc dstr nm,
 Proof. exact chunk_file_id_base. Qed.
 Print Assumptions C16_filter_is_on_base_name.
 
-(* verify_exact (workers taken in feeding order): if Verify returns nil then
+(* verify_exact (workers taken in feeding order).  Verify is the check: it reads with verification whatever
+   the store is configured to trust ([verifying st] = the store with SkipVerify off, since the fix of
+   verify/skip-verify-reports-nothing).  If Verify returns nil then, for ANY store options,
    - every reported id's canonical own-format object fails NewChunkFromStorage,
    - every canonical own-format chunk file whose object fails NewChunkFromStorage is reported,
    - without repair the tree is unchanged; with repair every path is as before or is the removed
      canonical path of a reported id, and every reported id whose canonical path is a file is removed,
-   - (verifying store) every canonical own-format chunk file that is NOT reported holds an object whose
-     data can be produced and hashes to the id in its name -- for every id, the all-zero one included
-     (since 27b0229). *)
+   - every canonical own-format chunk file that is NOT reported holds an object whose data can be produced
+     and hashes to the id in its name -- for every id, the all-zero one included. *)
 Theorem C16_verify_exact : forall (H : bytes -> id) (zdecomp : bytes -> option bytes) (st : store)
   fuel bstr repair s0 s' msgs,
   is_dir (stat (st_base st) s0) = true ->
   verify H zdecomp fuel st bstr repair s0 = (s', msgs, None) ->
-  (forall i, In i (reported msgs) -> wf_id i /\ exists sum, get_chunk H zdecomp st i s0 = GetInvalid sum) /\
+  (forall i, In i (reported msgs) -> wf_id i /\ exists sum, get_chunk H zdecomp (verifying st) i s0 = GetInvalid sum) /\
   (forall i en, wf_id i -> stat (snd (name_from_id st i)) s0 = Some en -> is_dir (Some en) = false ->
-     (exists sum, get_chunk H zdecomp st i s0 = GetInvalid sum) -> In i (reported msgs)) /\
+     (exists sum, get_chunk H zdecomp (verifying st) i s0 = GetInvalid sum) -> In i (reported msgs)) /\
   (repair = false -> s' = s0) /\
   (forall q, stat q s' = stat q s0 \/
      (stat q s' = None /\ repair = true /\ exists i, In i (reported msgs) /\ q = snd (name_from_id st i))) /\
   (repair = true -> forall i en, In i (reported msgs) -> stat (snd (name_from_id st i)) s0 = Some en ->
      is_dir (Some en) = false -> stat (snd (name_from_id st i)) s' = None) /\
-  (st_skip st = false -> forall i m b, wf_id i -> stat (snd (name_from_id st i)) s0 = Some (EFile m b) ->
+  (forall i m b, wf_id i -> stat (snd (name_from_id st i)) s0 = Some (EFile m b) ->
      ~ In i (reported msgs) -> exists d, storage_data zdecomp (st_unc st) b = Some d /\ H d = i).
-Proof. exact verify_exact. Qed.
+Proof. exact verify_exact_any. Qed.
 Print Assumptions C16_verify_exact.
+
+(* What Verify did before that fix (the same body run on the store as configured): on a store opened with
+   SkipVerify it reports nothing and removes nothing, whatever the store holds -- the property "Verify
+   reports the chunks whose content does not match their id" is refuted for the old code. *)
+Theorem C16_verify_skip_verify_reports_nothing_prefix_refuted :
+  forall (H : bytes -> id) (zdecomp : bytes -> option bytes) (st : store) fuel bstr repair s0,
+  st_skip st = true ->
+  fst (fst (verify_raw H zdecomp fuel st bstr repair s0)) = s0 /\
+  reported (snd (fst (verify_raw H zdecomp fuel st bstr repair s0))) = [].
+Proof. exact verify_raw_skip_reports_nothing. Qed.
+Print Assumptions C16_verify_skip_verify_reports_nothing_prefix_refuted.
 
 (* The order in which the workers handle the fed ids does not matter when every fed id's canonical path is
    a file (no alias names): any permutation gives the same reported set and the same tree. *)
@@ -227,4 +239,11 @@ Example C16_example_zero_id_reported :
   let t := Dir meta0 [([115]%N, Dir meta0 [(firstn 4 z, Dir meta0 [(z ++ ext_of false, File meta0 [1; 2; 3]%N)])])] in
   let '(_, msgs, e) := verify ex_H ex_zdecomp default_fuel ex_st [115]%N false t in
   e = None /\ reported msgs = [0%N].
+Proof. vm_compute. split; reflexivity. Qed.
+
+(* a SkipVerify store with a damaged chunk: Verify reports it; the pre-fix body did not *)
+Example C16_example_skip_verify_store :
+  let st := mkStore [[115]%N] false true in
+  reported (snd (fst (verify ex_H ex_zdecomp default_fuel st [115]%N false ex_tree))) = [7%N] /\
+  reported (snd (fst (verify_raw ex_H ex_zdecomp default_fuel st [115]%N false ex_tree))) = [].
 Proof. vm_compute. split; reflexivity. Qed.
